@@ -4,7 +4,7 @@
 N=${1:-3}
 cd /verif
 # names listed in the file given as $2 (one per line) are skipped (an interrupted run is continued that way)
-ls -d seeded/*/ | sed 's#seeded/##; s#/##' | grep -v -x -F -f "${2:-/dev/null}" > /tmp/reseedall.names
+ls -d seeded/*/ | sed 's#seeded/##; s#/##' | grep -v -x -F -f "${2:-/dev/null}" | awk -F- '{print $2, $0}' | sort -n | awk '{print $2}' > /tmp/reseedall.names  # oldest rounds first
 k=0
 while [ $k -lt $N ]; do
   ( awk -v n=$N -v k=$k 'NR % n == k' /tmp/reseedall.names | while read n; do
